@@ -73,7 +73,17 @@ Definition mon_C04 (rs : list row) : verdict :=
     else if Z.eqb (rkind r) 2 then mkV 540 (Z.to_N (rt r))
     else if Z.eqb (rkind r) 1 then (if left_by rs (rget 3 r) (rt r) then vok else mkV 541 (Z.to_N (rt r)))
     else if Z.eqb (rkind r) 3 then mkV 542 (Z.to_N (rt r))
-    else if Z.eqb (rkind r) 4 then (if left_by rs (rget 3 r) (rt r) && Z.eqb (rget 4 r) 3 then vok else mkV 543 (Z.to_N (rt r)))
+    else if Z.eqb (rkind r) 4 then
+      (if left_by rs (rget 3 r) (rt r) then
+         (if Z.eqb (rget 4 r) 3 then vok
+          else if Z.eqb (rget 4 r) 0 then
+            (* held Alive: fine while the node has not heard of the departure; but once it held the member Left,
+               the member must not come back *)
+            (if existsb (fun q => Z.eqb (rkind q) 4 && Z.eqb (rget 2 q) (rget 2 r) && Z.eqb (rget 3 q) (rget 3 r)
+                                  && Z.eqb (rget 4 q) 3 && (rt q <? rt r)) rs
+             then mkV 545 (Z.to_N (rt r)) else vok)
+          else mkV 543 (Z.to_N (rt r)))
+       else mkV 543 (Z.to_N (rt r)))
     else vok) rs.
 
 (* ---------- C03: detection in time ---------- *)
@@ -243,8 +253,8 @@ Definition fresh_alive (rs : list row) (i j : Z) : bool :=
                     existsb (fun p => Z.eqb (fst (fst p)) j && (snd (fst p) <=? rget 5 r)) (live_set rs)) (of_kind 8 rs).
 
 Definition view_ok (rs : list row) (i : Z) : bool :=
-  let want := zsort (map (fun p => fst (fst p) * 1000000 + snd p) (live_set rs)) in
-  let got := zsort (map (fun r => rget 3 r * 1000000 + rget 4 r) (filter (fun r => Z.eqb (rget 2 r) i) (of_kind 10 rs))) in
+  let want := zsort (map (fun p => fst (fst p) * 10000000000 + snd p) (live_set rs)) in
+  let got := zsort (map (fun r => rget 3 r * 10000000000 + rget 4 r) (filter (fun r => Z.eqb (rget 2 r) i) (of_kind 10 rs))) in
   zlist_eqb want got.
 
 Definition mon_C05 (rs : list row) : verdict :=
